@@ -485,7 +485,17 @@ def require_obligations(chk):
     nprobe = 0
     for kind, t in outs:
         defs = {}
+        absolute = None             # truth of `candidate.startswith(os.path.sep)` on this path since the candidate was formed
         for e in t:
+            if e[0] == 'assume' and ast.unparse(e[1]) in ('candidate.startswith(os.path.sep)', 'not candidate.startswith(os.path.sep)'):
+                absolute = e[2] if ast.unparse(e[1]).startswith('candidate') else not e[2]
+            if e[0] == 'assign' and isinstance(e[1], ast.Name) and e[1].id == 'candidate' and ast.unparse(e[2]) != 'os.path.join(rel_path_base, candidate)':
+                absolute = None
+            if e[0] == 'call' and e[1] in FILE_PROBES:
+                joined = defs.get(e[2][0] if e[2] else '', '').startswith('JOIN(')
+                if absolute is None or joined == absolute:
+                    bad.append('%s: the candidate is %sjoined to the requiring file\'s directory although it %s with the path separator'
+                               % (e[1], '' if joined else 'not ', 'starts' if absolute else 'was not tested / does not start'))
             if e[0] == 'assign' and isinstance(e[1], ast.Name):
                 defs[e[1].id] = ast.unparse(e[2])
                 if e[1].id == 'candidate' and defs[e[1].id] == 'os.path.join(rel_path_base, candidate)':
@@ -541,10 +551,11 @@ def touch(p, data=b'x = 1\n'):
     os.makedirs(os.path.dirname(p), exist_ok=True)
     open(p, 'wb').write(data)
 # layout:  work/proj (cart dir, root)   work/projX (prefix-sharing sibling)  work/outside   work/lib (absolute load path)  work/libX
-for d in ('proj', 'proj/sub', 'projX', 'outside', 'lib', 'libX'):
+for d in ('proj', 'proj/sub', 'projX', 'outside', 'lib', 'libX', 'cwd', 'cwd/sub'):
     os.makedirs(os.path.join(work, d), exist_ok=True)
 for f in ('proj/inc.lua', 'proj/sub/inc.lua', 'projX/inc.lua', 'projX/x.lua', 'outside/inc.lua', 'outside/x.lua', 'inc.lua', 'x.lua',
-          'lib/m.lua', 'libX/m.lua', 'libX/x.lua', 'lib/x.lua', 'proj/x.lua', 'proj/m.lua'):
+          'lib/m.lua', 'libX/m.lua', 'libX/x.lua', 'lib/x.lua', 'proj/x.lua', 'proj/m.lua',
+          'cwd/inc.lua', 'cwd/x.lua', 'cwd/m.lua', 'cwd/sub/inc.lua', 'cwd/inc', 'cwd/x', 'cwd/m'):
     touch(os.path.join(work, f), b'-- CANARY ' + f.encode() + b'\nx = 1\n')
 from pico8.game.formatter import p8 as p8fmt
 from pico8.game import file as pfile
@@ -563,6 +574,7 @@ def rec_isfile(f):
 def under(root, p):
     p = os.path.realpath(p)
     return p == root or p.startswith(root + os.sep)
+os.chdir(os.path.join(work, 'cwd'))          # the current directory is not a permitted root: a name resolved against it is a violation
 bad, n = [], 0
 frag = ['inc', 'x', 'm', '.', '..', '/', 'sub/', '../', 'projX/', '../projX/', '../outside/', work + '/outside/', '?', ';', 'X', '.lua', 'libX/', '../libX/',
         work.replace('/', '.') + '.outside.', work.replace('/', '\\') + '\\outside\\', '..outside.']      # other separator spellings of a path that leaves the roots
